@@ -1,6 +1,7 @@
 package c01
 
 import (
+	"context"
 	"database/sql"
 	"errors"
 	"fmt"
@@ -664,6 +665,102 @@ func TestC01Reuse(t *testing.T) {
 			sql, vars := x.tx.Statement.SQL.String(), chains.NormAll(x.tx.Statement.Vars)
 			if msg := chains.CheckNumbered(sql, len(vars)); msg != "" {
 				rt.Fatalf("C01 violated (reusable handle): statement %s: %s\n  case: %s\n  text: %s", x.what, msg, desc, sql)
+			}
+			check(x.what, sql, vars, x.want)
+		}
+	})
+}
+
+// TestC01Shared: a reusable handle h carries several calls of every appending
+// clause kind (0-7 Where, Having with Group, Order); two chain values A and B
+// are derived from h, each adding one more call of every kind, BEFORE either is
+// finished; then A runs, then B (or B, then A). Each statement must bind exactly
+// the values of the prefix plus its own.
+func TestC01Shared(t *testing.T) {
+	evid.Rule(rule)
+	rapid.Check(t, func(rt *rapid.T) {
+		s := chains.GenShared(rt, genConfig(true))
+		real := rapid.IntRange(0, 2).Draw(rt, "real") == 0
+		aFirst := rapid.Bool().Draw(rt, "afirst")
+		how := rapid.SampledFrom([]string{"session", "context", "debug"}).Draw(rt, "handle")
+		desc := fmt.Sprintf("shared real=%v runAfirst=%v handle=%s h=%s A=+%s B=+%s", real, aFirst, how, s.Prefix.String(), s.AddA.String(), s.AddB.String())
+		evid.Journal(desc)
+		info := s.FullA.Describe(real)
+		classes := append(chains.SortedKeys(info.Classes), "shared:"+how,
+			fmt.Sprintf("shared:prefix-where-%d", len(s.Prefix.Conds)), fmt.Sprintf("shared:prefix-having-%d", len(s.Prefix.PreHavings)), fmt.Sprintf("shared:prefix-order-%d", len(s.Prefix.PreOrders)))
+		evid.Case(desc, true, nil, classes...)
+
+		share := func(db *gorm.DB) *gorm.DB {
+			switch how {
+			case "context":
+				return db.WithContext(context.Background())
+			case "debug":
+				return db.Debug()
+			}
+			return db.Session(&gorm.Session{})
+		}
+		check := func(what, sql string, got, want []interface{}) {
+			if i := chains.SameAll(want, got); i >= 0 {
+				rt.Fatalf("C01 violated (shared handle): statement %s binds values that are not the ones its chain supplies (first difference at %d)\n  case: %s\n  text: %s\n  bound:    %s\n  expected: %s", what, i, desc, sql, chains.Render(got), chains.Render(want))
+			}
+		}
+		if real {
+			d := testdb.Open(testdb.Options{Config: gorm.Config{NowFunc: fixedNow}})
+			defer d.Close()
+			if err := chains.Prepare(d.SQL); err != nil {
+				rt.Fatalf("harness: %v", err)
+			}
+			h := share(s.Prefix.BuildFrom(d.DB, d.DB))
+			txA, txB := s.AddA.BuildFrom(h, d.DB), s.AddB.BuildFrom(h, d.DB)
+			d.Rec.Reset()
+			order := []struct {
+				add, full *chains.Chain
+				tx        *gorm.DB
+				what      string
+			}{{s.AddA, s.FullA, txA, "A"}, {s.AddB, s.FullB, txB, "B"}}
+			if !aFirst {
+				order[0], order[1] = order[1], order[0]
+			}
+			for i, o := range order {
+				if res := o.add.FinishOn(o.tx, d.DB); res.Error != nil {
+					rt.Fatalf("C01 violated (shared handle): statement %s failed: %v\n  case: %s", o.what, res.Error, desc)
+				}
+				stmts := d.Rec.Statements()
+				if len(stmts) != i+1 {
+					rt.Fatalf("C01 violated (shared handle): expected %d statement(s), the driver saw %d\n  case: %s", i+1, len(stmts), desc)
+				}
+				args := make([]interface{}, len(stmts[i].Args))
+				for k, x := range stmts[i].Args {
+					args[k] = chains.Norm(x.Value)
+				}
+				if n := chains.CountQ(stmts[i].Text); n != len(args) {
+					rt.Fatalf("C01 violated (shared handle): %d placeholders for %d arguments in %s\n  case: %s", n, len(args), stmts[i].Text, desc)
+				}
+				check(o.what, stmts[i].Text, args, o.full.Expected(chains.Mode{LiteralLimit: true, Now: fixedNow()}))
+			}
+			return
+		}
+		_, n := dry()
+		h := share(s.Prefix.BuildFrom(n, n))
+		txA, txB := s.AddA.BuildFrom(h, n), s.AddB.BuildFrom(h, n)
+		var resA, resB *gorm.DB
+		if aFirst {
+			resA, resB = s.AddA.FinishOn(txA, n), s.AddB.FinishOn(txB, n)
+		} else {
+			resB, resA = s.AddB.FinishOn(txB, n), s.AddA.FinishOn(txA, n)
+		}
+		m := chains.Mode{Now: fixedNow()}
+		for _, x := range []struct {
+			what string
+			tx   *gorm.DB
+			want []interface{}
+		}{{"A", resA, s.FullA.Expected(m)}, {"B", resB, s.FullB.Expected(m)}} {
+			if x.tx.Error != nil {
+				rt.Fatalf("C01 violated (shared handle): building %s failed: %v\n  case: %s", x.what, x.tx.Error, desc)
+			}
+			sql, vars := x.tx.Statement.SQL.String(), chains.NormAll(x.tx.Statement.Vars)
+			if msg := chains.CheckNumbered(sql, len(vars)); msg != "" {
+				rt.Fatalf("C01 violated (shared handle): statement %s: %s\n  case: %s\n  text: %s", x.what, msg, desc, sql)
 			}
 			check(x.what, sql, vars, x.want)
 		}
